@@ -68,6 +68,13 @@ ListRemoveErr == /\ IsEvent("listremove") /\ Ev.res # "ok" /\ Observed /\ db' = 
 (* a database decoded from a well-formed stream is exactly the lists of that stream (C07) *)
 Load      == /\ IsEvent("load") /\ Ev.res = "ok" /\ Observed /\ db = <<>> /\ db' = Ev.want /\ sl' = sl
 AppendList == /\ IsEvent("appendlist") /\ Observed /\ db' = Append(db, sl) /\ sl'.type = "none"
+(* removing a whole list: exactly that list goes, or (the database does not hold it) an error and nothing changes *)
+RemoveListOk  == /\ IsEvent("removelist") /\ Ev.res = "ok" /\ Observed /\ sl' = sl
+                 /\ \E k \in 1..Len(db) : db[k] = Ev.target /\ db' = Without(db, k)
+RemoveListErr == /\ IsEvent("removelist") /\ Ev.res # "ok" /\ Observed /\ sl' = sl /\ db' = db
+                 /\ \A k \in 1..Len(db) : db[k] # Ev.target
+ListQuery == /\ IsEvent("listquery") /\ Observed /\ db' = db /\ sl' = sl
+             /\ Ev.res \in {"true", "false"} /\ (Ev.res = "true" <=> InList(sl, Ev.o, Ev.d))
 AllDecodable(d) == \A i \in 1..Len(d) : d[i].type \in Decodable
 Recode    == /\ IsEvent("recode") /\ Observed /\ sl' = sl
              /\ \/ Ev.res = "ok" /\ db' = db
@@ -78,7 +85,7 @@ Reset     == IsEvent("reset") /\ db' = Ev.db /\ sl' = Ev.sl /\ db' = <<>>
 Init == db = <<>> /\ sl = [type |-> "none", listsize |-> 0, hdrsize |-> 0, size |-> 0, entries |-> <<>>] /\ l = 1
 NoList == [type |-> "none", listsize |-> 0, hdrsize |-> 0, size |-> 0, entries |-> <<>>]
 Conform == \/ AppendOk \/ AppendErr \/ RemoveOk \/ RemoveErr \/ Query \/ ListNew \/ ListAppendOk \/ ListAppendErr
-           \/ ListRemoveOk \/ ListRemoveErr \/ AppendList \/ Load \/ Recode \/ Skip \/ Reset
+           \/ ListRemoveOk \/ ListRemoveErr \/ AppendList \/ Load \/ RemoveListOk \/ RemoveListErr \/ ListQuery \/ Recode \/ Skip \/ Reset
 (* An event no action explains is recorded (register 2) and the rest of that scenario is skipped *)
 (* (Ev.nx = index of the next reset event), so that every other scenario is still validated.     *)
 Deviate == /\ l <= Len(Trace) /\ ~ENABLED Conform
